@@ -275,6 +275,12 @@ func (c *AttackCase) judgeSSO(o *h.Outcome) *h.Violation {
 					}
 				}
 				if ok {
+					// an assertion flag inside a validated Response still needs the assertion's OWN trusted signature
+					for i := range resp.Assertions {
+						if resp.Assertions[i].SignatureValidated && !viewIn(h.ViewOfAssertion(&resp.Assertions[i]), p.own) {
+							return h.V("assertion-flag-without-own-signature", "%s: assertion %d inside a validated Response is flagged validated although it carries no trusted signature of its own (notes %v)", entry, i, c.Notes)
+						}
+					}
 					return nil
 				}
 			}
